@@ -167,7 +167,9 @@ class C16(Profile):
             rec = {"values": np.asarray(codec.dec(op["values"]), dtype=float), "dt": float(op["dt"]), "label": op["label"],
                    "via": op["via"]}
             old = world.model.get(f)
-            if out.ok and not real_fault:
+            if out.ok:
+                # a save that returns normally is acknowledged, whether or not a fault was injected into it:
+                # what it wrote must load back (an implementation that swallows an I/O error owns the result)
                 if isinstance(old, dict):
                     world.prev[f] = "overwrite-shorter" if len(rec["values"]) < len(old["values"]) else \
                         ("overwrite-longer" if len(rec["values"]) > len(old["values"]) else "overwrite-same")
@@ -180,10 +182,6 @@ class C16(Profile):
                 pk = world.pending_recover.pop(f, None)
                 if pk:
                     st["faults"][pk]["recovered"] += 1
-                return None
-            if out.ok and real_fault:
-                # the fault fired but the save swallowed it: we no longer know what is on disk
-                world.model[f] = UNKNOWN
                 return None
             if not out.ok and not real_fault:
                 # a save that fails without any injected fault
